@@ -62,9 +62,19 @@ func (x *Exec) verifyUnit(fn *ssa.Function) {
 	var sizeTerms []string
 	for i, p := range fn.Params {
 		v := x.symVal(st, p.Name(), p.Type())
-		if i == 0 && fn.Signature.Recv() != nil {
-			if pv, ok := v.(PtrV); ok && pv.Ref != "" {
-				st.assume(tNot(tEq(pv.Ref, "0"))) // receivers are non-nil (global assumption)
+		_ = i
+		// pointer and interface parameters are non-nil unless the contract says `nullable <name>`
+		// (checked at every call that goes through a contract)
+		if x.unitC == nil || !x.unitC.Nullable[p.Name()] {
+			switch pv := v.(type) {
+			case PtrV:
+				if pv.Ref != "" {
+					st.assume(tNot(tEq(pv.Ref, "0")))
+				}
+			case IfaceV:
+				if pv.Sym != "" {
+					st.assume(tNot(tEq(pv.Sym, "0")))
+				}
 			}
 		}
 		fr.vals[p] = v
@@ -312,10 +322,20 @@ func (x *Exec) callByContract(st *State, fr *Frame, callee *ssa.Function, c *Con
 			cf.params[fv.Name()] = bind[i]
 		}
 	}
-	// receivers must be non-nil
-	if callee.Signature.Recv() != nil && len(args) > 0 {
-		if pv, ok := args[0].(PtrV); ok {
-			x.nilCheck(st, fr, pv, instr)
+	// pointer and interface arguments must be non-nil (the callee assumes it)
+	for i, p := range callee.Params {
+		if i >= len(args) || c.Nullable[p.Name()] {
+			continue
+		}
+		switch av := args[i].(type) {
+		case PtrV:
+			x.nilCheck(st, fr, av, instr)
+		case IfaceV:
+			if av.Sym != "" {
+				x.safe(st, fr, "nil", tNot(tEq(av.Sym, "0")), instr)
+			} else if av.Dyn == nil {
+				x.safe(st, fr, "nil", "false", instr)
+			}
 		}
 	}
 	pre := st.fork()
